@@ -17,6 +17,14 @@
 (*   FixF9 = FALSE : with a promise set, AwaitWithErrCh / AwaitWithCancelCh wait on          *)
 (*                   (ctx, replacement, result) only; TRUE: also on their own channel.       *)
 (*                                                                                          *)
+(*   Fine  = TRUE  : the granularity of sched.Exec.ParkUnl executions: the END of a critical  *)
+(*                   section is a scheduling point too, i.e. the logged return of SetPromise / *)
+(*                   container.SetResult is a step of its own (ReplRet), steps after the       *)
+(*                   section took effect; the monitor is told (fine).  (An awaiter's sampling  *)
+(*                   section and its select are separate actions at either setting; nothing    *)
+(*                   lies between the last atomic step of Promise.SetResult and its return.)   *)
+(*                   Model check only: schedules come from the coarse graph.                   *)
+(*                                                                                          *)
 (* Broadcast abstraction as in RWMutex.tla: wch[p] \in {"none","cur","closed"}.              *)
 EXTENDS PromiseP, Integers
 
@@ -25,6 +33,7 @@ CONSTANTS
     Cur0,        \* promise initially held by the container (0 = nil)
     Prog,        \* Prog[p]: sequence of [op, q, v, e, kind, c, f]
     FixF8, FixF9,
+    Fine,        \* TRUE: the return of a replacement is logged in a later step than its critical section
     EagerWake    \* TRUE: selects that can fire fire before anything else (controller granularity)
 
 Procs == 1..Len(Prog)
@@ -48,7 +57,7 @@ CurId(p) == Id(p, ip[p])
 Done(p) == ip[p] > Len(Prog[p])
 
 Init ==
-    /\ PInitScen(Proms0, Cur0)
+    /\ PInitScenF(Proms0, Cur0, Fine)
     /\ isDone = [q \in PIds |-> Proms0[q].r]
     /\ fld = [q \in PIds |-> IF Proms0[q].r THEN <<Proms0[q].v, Proms0[q].e>> ELSE <<>>]
     /\ closed = [q \in PIds |-> Proms0[q].r]
@@ -157,6 +166,24 @@ PWakeCh(p)  == pc[p] = "psel" /\ HasCh(p) /\ RetAwait(p, ChRet(p, FALSE))
 -----------------------------------------------------------------------------
 (* PromiseContainer *)
 
+\* the end of a replacement's critical section: coarse: the call returns in the same step;
+\* Fine: the goroutine parks (verifhook.Unlocked), the return is logged by a later step
+ReplDone(p) ==
+    IF Fine
+    THEN /\ pc' = [pc EXCEPT ![p] = "replret"]
+         /\ UNCHANGED <<ip, pvars>>
+    ELSE /\ pc' = [pc EXCEPT ![p] = "idle"]
+         /\ Advance(p)
+         /\ PRetRepl(CurId(p))
+
+ReplRet(p) ==
+    /\ Gate
+    /\ pc[p] = "replret"
+    /\ pc' = [pc EXCEPT ![p] = "idle"]
+    /\ Advance(p)
+    /\ PRetRepl(CurId(p))
+    /\ UNCHANGED <<isDone, fld, closed, cur, wch, got, ctxc, chf>>
+
 \* SetResult (container.go:49-56): prom := NewPromiseWithResult; HoldLock{promise = prom; broadcast()}
 CsetCS(p) ==
     /\ Gate
@@ -167,9 +194,7 @@ CsetCS(p) ==
        /\ closed' = [closed EXCEPT ![q] = TRUE]
        /\ cur' = q
     /\ wch' = Bcast(wch)
-    /\ pc' = [pc EXCEPT ![p] = "idle"]
-    /\ Advance(p)
-    /\ PRetRepl(CurId(p))
+    /\ ReplDone(p)
     /\ UNCHANGED <<got, ctxc, chf>>
 
 \* SetPromise (container.go:38-45)
@@ -179,9 +204,7 @@ SetpCS(p) ==
     /\ IF cur # Op(p).q
        THEN cur' = Op(p).q /\ wch' = Bcast(wch)
        ELSE UNCHANGED <<cur, wch>>
-    /\ pc' = [pc EXCEPT ![p] = "idle"]
-    /\ Advance(p)
-    /\ PRetRepl(CurId(p))
+    /\ ReplDone(p)
     /\ UNCHANGED <<isDone, fld, closed, got, ctxc, chf>>
 
 \* the critical section at the top of each Await* loop: prom, waitCh = p.promise, getWaitCh()
@@ -239,7 +262,7 @@ Next ==
         \/ Call(p) \/ Cancel(p) \/ Fire(p)
         \/ Swap(p) \/ SetWrite(p) \/ SetClose(p)
         \/ PWakeRes(p) \/ PWakeCtx(p) \/ PWakeCh(p)
-        \/ CsetCS(p) \/ SetpCS(p) \/ ACS(p)
+        \/ CsetCS(p) \/ SetpCS(p) \/ ReplRet(p) \/ ACS(p)
         \/ NWakeCtx(p) \/ NWakeCh(p) \/ NWakeW(p)
         \/ IWakeCtx(p) \/ IWakeW(p) \/ IWakeRes(p) \/ IWakeCh(p)
 
@@ -267,7 +290,9 @@ FieldsBeforeClose == \A q \in PIds : closed[q] => fld[q] # <<>>
 \* promise's late result -- Go's select chooses.  PromiseP's "follows replacements" condition
 \* (WrongResult:container:*, via `late`) is exact at the controller's granularity (EagerWake), where
 \* the awaiter always wakes at the replacement; in the full interleaving it is expected and tolerated.
-LateRace == IF EagerWake THEN {} ELSE {n \in bad : Len(n) >= 21 /\ SubSeq(n, 1, 21) = "WrongResult:container"}
+\* Fine: the monitor itself applies that condition to coarse executions only (PromiseP header), so
+\* every condition must hold as it stands, in the full interleaving.
+LateRace == IF EagerWake \/ Fine THEN {} ELSE {n \in bad : Len(n) >= 21 /\ SubSeq(n, 1, 21) = "WrongResult:container"}
 ModelSafe == bad \ LateRace = {}
 
 \* what the pinned code is known to get wrong at quiescent points (F9)
